@@ -59,10 +59,32 @@ def install_boundary_hook():
     Connection.newTransaction = newTransaction
 
 
+def install_finish_hook():
+    """Record (tid, oids) of every commit at the moment the storage
+    publishes it (inside its finish), attributed to the running task."""
+    from ZODB.mvccadapter import MVCCAdapter
+    if getattr(MVCCAdapter._invalidate_finish, '_zsim', False):
+        return
+    orig = MVCCAdapter._invalidate_finish
+
+    def _invalidate_finish(self, tid, oids, committing_instance):
+        sim = ctx.CUR
+        rec = getattr(sim, 'recorder', None) if sim is not None else None
+        if rec is not None:
+            s = sim.sched
+            who = s.current.idx if (s is not None and s.current is not None) \
+                else -1
+            rec.add('F', who, tid, sorted(oids), len(sim.fs.log))
+        return orig(self, tid, oids, committing_instance)
+    _invalidate_finish._zsim = True
+    MVCCAdapter._invalidate_finish = _invalidate_finish
+
+
 class World:
 
     def __init__(self, case):
         install_boundary_hook()
+        install_finish_hook()
         self.case = case
         self.sim = ctx.activate(ctx.Sim(case['seed'],
                                         bufsize=case.get('bufsize', 8192),
@@ -131,6 +153,7 @@ class ClientTask:
         self.explicit = explicit
         self.txn_no = 0
         self.outcomes = []
+        self.sched_idx = idx
 
     def cells(self):
         r = self.cl.root()
@@ -172,6 +195,10 @@ class ClientTask:
             self.txn_no += 1
             own = {}
             written = []
+            phase = 'read'
+            if kind == 'undo':
+                self.do_undo(txn)
+                continue
             try:
                 rec.add('T', self.idx, rec.cid(cl.conn), self.txn_no)
                 cl.begin()
@@ -213,9 +240,11 @@ class ClientTask:
                     continue
                 inv = rec.add('CI', self.idx, self.txn_no,
                               [x[:2] for x in written])
+                phase = 'commit'
                 cl.commit()
                 ret = rec.add('CR', self.idx, self.txn_no,
-                              [x[:2] for x in written])
+                              [x[:2] for x in written],
+                              len(w.sim.fs.log))
                 w.commits_ok.append((self.idx, self.txn_no, written, inv,
                                      ret))
                 self.outcomes.append('commit')
@@ -223,7 +252,8 @@ class ClientTask:
                 self.outcomes.append('readconflict'
                                      if isinstance(e, ReadConflictError)
                                      else 'conflict')
-                rec.add('X', self.idx, self.txn_no, type(e).__name__)
+                rec.add('X', self.idx, self.txn_no, type(e).__name__, phase,
+                        getattr(cl.conn._storage, '_start', None))
                 cl.abort()
             except ctx.SimAbort:
                 raise
@@ -248,6 +278,35 @@ class ClientTask:
         except Exception as e:          # noqa: B902
             w.flag('client-exception', 'client %d close raised %s'
                    % (self.idx, type(e).__name__))
+
+
+def _do_undo(self, txn):
+    """Undo one of this client's own recent commits through DB.undo."""
+    from ZODB.POSException import UndoError
+    from .model import undo_id
+    w = self.w
+    mine = [ev[3] for ev in w.rec.events
+            if ev[1] == 'F' and ev[2] == self.sched_idx]
+    if not mine:
+        return
+    tid = mine[txn.get('k', -1) % len(mine)]
+    cl = self.cl
+    try:
+        cl.begin()
+        w.db.undo(undo_id(tid), cl.tm.get())
+        w.rec.add('UI', self.idx, self.txn_no, tid)
+        cl.commit()
+        w.rec.add('UR', self.idx, self.txn_no, tid)
+        self.outcomes.append('undo')
+    except UndoError:
+        self.outcomes.append('undo-refused')
+        cl.abort()
+    except ConflictError:
+        self.outcomes.append('conflict')
+        cl.abort()
+
+
+ClientTask.do_undo = _do_undo
 
 
 def gen_script(r, ncell, ntxn, write_p=0.5, rc_p=0.0, abort_p=0.08,
@@ -330,13 +389,53 @@ def revisions_by_oid(log):
     return out
 
 
-def check_snapshots(w, log, pack_stop=None):
+def full_history(w, log):
+    """Per oid the complete list of (tid, token) revisions: what the
+    storage still holds plus every commit published during the run (a
+    concurrent pack may have removed old revisions from the storage)."""
+    revs = {oid: dict((tid, dbh.leaf_token(tok)) for tid, tok in lst)
+            for oid, lst in revisions_by_oid(log).items()}
+    # tokens written per (task idx, txn): from CI events
+    pending = {}
+    for ev in w.rec.events:
+        if ev[1] == 'CI':
+            pending[ev[2]] = dict(ev[4])
+        elif ev[1] == 'UI':
+            pending[ev[2]] = {}
+        elif ev[1] == 'F':
+            _, _, who, tid, oids, logidx = ev
+            toks = pending.get(who, {})
+            for oid in oids:
+                d = revs.setdefault(oid, {})
+                if tid not in d:
+                    # token unknown for undo transactions: wildcard
+                    d[tid] = toks.get(oid, ANY)
+    return {oid: sorted(d.items()) for oid, d in revs.items()}
+
+
+class _Any:
+    def __eq__(self, other):
+        return True
+
+    def __hash__(self):
+        return 0
+
+    def __repr__(self):
+        return '*'
+
+
+ANY = _Any()
+
+
+def check_snapshots(w, log, revs=None):
     """C02 (1)-(3) over the recorded history."""
-    revs = revisions_by_oid(log)
+    if revs is None:
+        revs = revisions_by_oid(log)
     tok_tid = {}
     for oid, lst in revs.items():
         for tid, tok in lst:
-            tok_tid[(oid, dbh.leaf_token(tok))] = tid
+            # first occurrence: an undo can bring a token back later
+            tok_tid.setdefault((oid, dbh.leaf_token(tok)), tid)
     # commits that returned: tid from the tokens they wrote
     ret_tids = []           # (return seq, tid)
     for (ci, txn_no, written, inv, ret) in w.commits_ok:
@@ -375,7 +474,8 @@ def check_snapshots(w, log, pack_stop=None):
             nxt = None
             found = False
             for i, (tid, t) in enumerate(lst):
-                if tid == serial and t == tok:
+                if tid == serial and (t == tok
+                                      or t == dbh.leaf_token(tok)):
                     found = True
                     nxt = lst[i + 1][0] if i + 1 < len(lst) else INF
             if not found:
@@ -438,11 +538,15 @@ def check_final_state(w, log):
                % (type(e).__name__, str(e)[:80]))
 
 
-def check_no_lost_updates(w, log):
+def check_no_lost_updates(w, log, allow_gaps=False):
     """C03: every committed revision of a shared cell derives from the
-    revision immediately preceding it."""
+    revision immediately preceding it.  allow_gaps: a pack may have removed
+    intermediate revisions."""
     nrev = 0
+    undone = undone_oids(w)
     for oid in w.oids:
+        if oid in undone:
+            continue        # an undo legitimately takes tokens away
         prev_log = None
         prev_n = None
         for tid, r in log.revisions(oid):
@@ -463,6 +567,12 @@ def check_no_lost_updates(w, log):
                         w.flag('lost-update', 'revision %r of %r (merging '
                                'class) lost tokens of its predecessor: %r '
                                '-> %r' % (tid, oid, prev_log, lg))
+                elif allow_gaps:
+                    if lg[:len(prev_log)] != prev_log or \
+                            len(lg) <= len(prev_log):
+                        w.flag('lost-update', 'revision %r of %r does not '
+                               'extend an earlier remaining revision: log '
+                               '%r after %r' % (tid, oid, lg, prev_log))
                 else:
                     if lg[:-1] != prev_log or n != prev_n + 1:
                         w.flag('lost-update', 'revision %r of %r was not '
@@ -479,19 +589,33 @@ def check_no_lost_updates(w, log):
                 w.flag('lost-update', 'writes %r to %r were acknowledged '
                        'but are not in its final state %r'
                        % (missing, oid, prev_log))
-            extra = [t for t in prev_log if t not in toks]
+            extra = [t for t in prev_log if t not in toks
+                     and t not in getattr(w, 'preknown', ())]
             if extra:
                 w.flag('phantom-update', 'final state of %r contains %r '
                        'which no acknowledged commit wrote' % (oid, extra))
     w.stats['revisions_checked'] = nrev
 
 
+def undone_oids(w):
+    """oids written by transactions that a client undid successfully."""
+    events = getattr(getattr(w, 'rec', None), 'events', ())
+    undone_tids = {ev[4] for ev in events if ev[1] == 'UR'}
+    out = set()
+    for ev in events:
+        if ev[1] == 'F' and ev[3] in undone_tids:
+            out.update(ev[4])
+    return out
+
+
 def check_read_current(w, log):
     """C03: a committed transaction that declared a dependency on x being
     current was committed while x still had that revision."""
     revs = revisions_by_oid(log)
-    tok_tid = {(oid, dbh.leaf_token(tok)): tid for oid, lst in revs.items()
-               for tid, tok in lst}
+    tok_tid = {}
+    for oid, lst in revs.items():
+        for tid, tok in lst:
+            tok_tid.setdefault((oid, dbh.leaf_token(tok)), tid)
     committed = {(ci, tn): written for (ci, tn, written, inv, ret)
                  in w.commits_ok}
     n = 0
